@@ -154,6 +154,10 @@ Clauses(st, e) ==
         (e.ev = "CombRaise" /\ st.op \in BoolOps) => FALSE>>,
      <<"C15_CallReturnsOutput",
         (e.ev = "CombRaise" /\ st.op \in ZipOps) => FALSE>>,
+     <<"C14_CompletionUndisturbed",   \* completing an input never raises on behalf of the combinator watching it
+        (e.ev = "InputSetRaise" /\ st.op \in BoolOps) => FALSE>>,
+     <<"C15_CompletionUndisturbed",
+        (e.ev = "InputSetRaise" /\ st.op \in ZipOps) => FALSE>>,
      <<"C14_Fold",
         AtEnd(st, e, BoolOps) => (Waived(st) \/ ObservedOutcome(st) \in Expected(st))>>,
      <<"C14_LosersCancelled",
